@@ -190,7 +190,7 @@ def r3_heap_bounded(ctx):
     c06.r3_reclaim_at_step_boundary(ctx)
     kept = []
     for o in ctx.obs[before:]:
-        if "release" in o["site"] or "process_pending_free" in o["site"] or "retain" in o["site"]:
+        if "release" in o["site"] or "process_pending_free" in o["site"] or "retain" in o["site"] or o["site"].endswith("|first"):
             o = dict(o)
             o["rule"] = R
             kept.append(o)
@@ -201,8 +201,19 @@ def r3_heap_bounded(ctx):
     ctx.floors[:] = [f for f in ctx.floors if not f["rule"].startswith("R-C06")]
 
 
+def r4_tail_call_height(ctx):
+    """constant operand stack: the height at which each emitted TailCall executes is fixed per combination of the generator's flag parameters
+    (a tail call emitted one cell higher leaves a dead cell per iteration) — the tail-call part of R-C07-7"""
+    from rules import c07
+    before = len(ctx.obs)
+    c07.r7_emitted_stack_discipline(ctx, "R-C16-4")
+    kept = [o for o in ctx.obs[before:] if "tail_call" in o["site"] or o["status"] == "violated" or o["site"] == "stack-effect-table"]
+    ctx.obs[before:] = kept
+    ctx.floors[:] = [f for f in ctx.floors if f["rule"] != "R-C16-4"]
+
+
 def run(ctx):
-    ctx.run_rules([r1_tail_call_handler, r2_strip_keeps_tail_position, r3_heap_bounded])
+    ctx.run_rules([r1_tail_call_handler, r2_strip_keeps_tail_position, r3_heap_bounded, r4_tail_call_height])
     return (
         "Decides the mechanism only: the TailCall handler pushes no frame (also transitively), truncates locals on every non-error path before "
         "pushing the new ones, overwrites the top frame in place with the same locals_base; frames are pushed at exactly three reviewed sites; "
